@@ -102,7 +102,7 @@ void sched_lock_exit();
 int sched_lock_depth();
 
 // site ids for simulator-originated yield points (library H1 sites use 1..15)
-enum { SITE_OP_BEGIN = 16, SITE_OP_END = 17, SITE_ALLOC = 18, SITE_FREE = 19, SITE_MMAP = 20, SITE_MPROTECT = 21, SITE_MUNMAP = 22, SITE_TASK_END = 23, SITE_PHASE_START = 24 };
+enum { SITE_OP_BEGIN = 16, SITE_OP_END = 17, SITE_ALLOC = 18, SITE_FREE = 19, SITE_MMAP = 20, SITE_MPROTECT = 21, SITE_MUNMAP = 22, SITE_TASK_END = 23, SITE_PHASE_START = 24, SITE_SIGACTION = 25, SITE_PREEMPT = 26 };
 
 // ---------------------------------------------------------------- misc
 std::string hex(const void *p, size_t n);
